@@ -43,7 +43,7 @@ func psiHasTyped(d *astits.PSIData) bool {
 	for _, s := range d.Sections {
 		psiEachDescList(s, func(ds []*astits.Descriptor) {
 			for _, x := range ds {
-				if refTypedTags[x.Tag] && x.Length > 0 {
+				if psiRefTypedTags[x.Tag] && x.Length > 0 {
 					found = true
 				}
 			}
@@ -76,7 +76,7 @@ func psiStubSafe(bs []byte) bool {
 // psiSelfCheck: the reference decoder must invert the reference encoder on every generated model
 // (a failure is a bug of this harness, not of the library).
 func psiSelfCheck(d *astits.PSIData, bs []byte) {
-	got, _, err := refDecodeUnit(bs)
+	got, _, err := psiRefDecodeUnit(bs)
 	if err != nil {
 		panic(fmt.Sprintf("harness self-check: reference decoder rejects the reference encoding %x", bs))
 	}
@@ -88,33 +88,33 @@ func psiSelfCheck(d *astits.PSIData, bs []byte) {
 // psiGenByTid builds a unit whose first section has the given table id.
 func psiGenByTid(r *Rng, tid int) (*astits.PSIData, []byte) {
 	switch {
-	case !refKnown(tid):
+	case !psiRefKnown(tid):
 		d := psiUnit(psiStop(tid))
-		return d, append(refEncodeUnit(d, nil), r.Bytes(r.Intn(6))...)
-	case refDecoded(tid):
+		return d, append(psiRefEncodeUnit(d, nil), r.Bytes(r.Intn(6))...)
+	case psiRefDecoded(tid):
 		var s *astits.PSISection
 		switch {
 		case tid == rTidPAT:
 			s = psiGenPAT(r, 1)
 		case tid == rTidPMT:
 			s = psiGenPMT(r, 1)
-		case refIsNIT(tid):
+		case psiRefIsNIT(tid):
 			s = psiGenNIT(r, 1)
-		case refIsSDT(tid):
+		case psiRefIsSDT(tid):
 			s = psiGenSDT(r, 1)
-		case refIsEIT(tid):
+		case psiRefIsEIT(tid):
 			s = psiGenEIT(r, 1)
 		default:
 			s = psiGenTOT(r, 1)
 		}
 		s.Header.TableID = astits.PSITableID(tid)
 		d := psiUnit(s)
-		return d, refEncodeUnit(d, nil)
+		return d, psiRefEncodeUnit(d, nil)
 	}
 	// assigned but not decoded (BAT, DIT, RST, SIT, ST, TDT): header and an opaque body
 	n := r.Intn(40)
 	body := r.Bytes(n)
-	hdr := &astits.PSISectionHeader{TableID: astits.PSITableID(tid), TableType: refTableName(tid),
+	hdr := &astits.PSISectionHeader{TableID: astits.PSITableID(tid), TableType: psiRefTableName(tid),
 		SectionSyntaxIndicator: r.Bool(), PrivateBit: r.Bool(), SectionLength: uint16(n)}
 	s := &astits.PSISection{Header: hdr}
 	if n > 0 {
@@ -141,12 +141,12 @@ func psiCRCFix(b []byte, off int) {
 	if l < 4 || end > len(b) {
 		return
 	}
-	c := refCRC32(b[off : end-4])
+	c := psiRefCRC32(b[off : end-4])
 	b[end-4], b[end-3], b[end-2], b[end-1] = byte(c>>24), byte(c>>16), byte(c>>8), byte(c)
 }
 
-// muxerConvention sets Header.SectionLength the way Muxer.generatePAT / generatePMT do.
-func muxerConvention(d *astits.PSIData) {
+// psiMuxerConvention sets Header.SectionLength the way Muxer.generatePAT / generatePMT do.
+func psiMuxerConvention(d *astits.PSIData) {
 	for _, s := range d.Sections {
 		switch {
 		case s.Header.TableID == astits.PSITableIDPAT && s.Syntax != nil && s.Syntax.Data != nil && s.Syntax.Data.PAT != nil:
@@ -171,7 +171,7 @@ func (c13) Gen(r *Rng, tier string, emit func(string, Tok)) {
 		for class, n := range []int{6, 60, 5} {
 			for k := 0; k < n*scale; k++ {
 				d := psiUnit(g(r, class))
-				valid("valid-"+psiGenNames[gi]+"-"+[]string{"empty", "small", "limit"}[class], d, refEncodeUnit(d, nil))
+				valid("valid-"+psiGenNames[gi]+"-"+[]string{"empty", "small", "limit"}[class], d, psiRefEncodeUnit(d, nil))
 			}
 		}
 	}
@@ -208,7 +208,7 @@ func (c13) Gen(r *Rng, tier string, emit func(string, Tok)) {
 			}
 			filler = r.Bytes(d.PointerField)
 		}
-		bs := append(refEncodeUnit(d, filler), tail...)
+		bs := append(psiRefEncodeUnit(d, filler), tail...)
 		valid("valid-multi", d, bs)
 		if k%3 == 0 {
 			pkt := genPacket(r)
@@ -216,15 +216,14 @@ func (c13) Gen(r *Rng, tier string, emit func(string, Tok)) {
 		}
 	}
 	// 4. reserved bits are ignored by a decoder
-	saved := refRsv
 	for k := 0; k < 120*scale; k++ {
-		refRsv = func(n uint) uint64 { return r.U64() & (1<<n - 1) }
+		psiRefRsvMode = 2 + r.U64()>>1
 		if k%4 == 0 {
-			refRsv = func(n uint) uint64 { return 0 }
+			psiRefRsvMode = 1
 		}
 		d := psiUnit(psiGens[k%6](r, 1))
-		bs := refEncodeUnit(d, nil)
-		refRsv = saved
+		bs := psiRefEncodeUnit(d, nil)
+		psiRefRsvMode = 0
 		valid("valid-reserved-bits", d, bs)
 	}
 	// 5. generic header fields at every single-bit value
@@ -259,7 +258,7 @@ func (c13) Gen(r *Rng, tier string, emit func(string, Tok)) {
 			}
 			s.Header.SectionSyntaxIndicator, s.Header.PrivateBit = bit%2 == 0, bit%3 == 0
 			d := psiUnit(s)
-			valid("valid-header-bits", d, refEncodeUnit(d, nil))
+			valid("valid-header-bits", d, psiRefEncodeUnit(d, nil))
 		}
 	}
 	// 6. writer: PAT and PMT contents, with the length field as the parser delivers it and as the muxer sets it
@@ -287,9 +286,9 @@ func (c13) Gen(r *Rng, tier string, emit func(string, Tok)) {
 			emit("calc-pmt-length", L(I(5), ToTok(*s.Syntax.Data.PMT)))
 		}
 		if k%2 == 0 {
-			emit("reemit", L(I(6), B(refEncodeUnit(d, nil))))
+			emit("reemit", L(I(6), B(psiRefEncodeUnit(d, nil))))
 		}
-		muxerConvention(d)
+		psiMuxerConvention(d)
 		emit("write-wf-muxer-convention", L(I(2), ToTok(*d)))
 	}
 	// 7. writer outside its domain: nil pointers, other tables, zero length field, odd pointer fields
@@ -349,7 +348,7 @@ func (c13) Gen(r *Rng, tier string, emit func(string, Tok)) {
 	// 8. malformed: truncation at every offset of small units, extensions, random bytes
 	for k := 0; k < 12*scale; k++ {
 		d := psiUnit(psiGens[k%6](r, r.Intn(2)), psiGens[r.Intn(6)](r, 0))
-		bs := refEncodeUnit(d, nil)
+		bs := psiRefEncodeUnit(d, nil)
 		step := 1
 		if len(bs) > 120 {
 			step = len(bs)/120 + 1
@@ -388,7 +387,7 @@ func (c13) Gen(r *Rng, tier string, emit func(string, Tok)) {
 	kept, dropped := 0, 0
 	for k := 0; k < 500*scale; k++ {
 		d := psiUnit(psiGens[k%6](r, 1))
-		bs := refEncodeUnit(d, nil)
+		bs := psiRefEncodeUnit(d, nil)
 		for m := r.Range(1, 2); m > 0; m-- {
 			p := 1 + r.Intn(len(bs)-1)
 			switch r.Intn(4) {
@@ -504,24 +503,24 @@ func psiWritable(d *astits.PSIData) bool {
 		ok := true
 		psiEachDescList(s, func(ds []*astits.Descriptor) {
 			for _, y := range ds {
-				if y == nil || (refTypedTags[y.Tag] && !refIsUserTag(y.Tag)) || len(refDescBody(y)) > 255 {
+				if y == nil || (psiRefTypedTags[y.Tag] && !psiRefIsUserTag(y.Tag)) || len(psiRefDescBody(y)) > 255 {
 					ok = false
 				}
-				if y != nil && !refIsUserTag(y.Tag) && y.Unknown == nil && len(y.UserDefined) > 0 {
+				if y != nil && !psiRefIsUserTag(y.Tag) && y.Unknown == nil && len(y.UserDefined) > 0 {
 					ok = false
 				}
 			}
 		})
-		if !ok || len(refEncodeSection(s)) > 1024 {
+		if !ok || len(psiRefEncodeSection(s)) > 1024 {
 			return false
 		}
 	}
 	return true
 }
 
-// expectedToData: one entry per section of a decoded type that has a syntax part, in order, carrying
+// psiExpectedToData: one entry per section of a decoded type that has a syntax part, in order, carrying
 // the section's table, the PID and the first packet.
-func expectedToData(d *astits.PSIData, p *astits.Packet, pid uint16) ([]Tok, bool) {
+func psiExpectedToData(d *astits.PSIData, p *astits.Packet, pid uint16) ([]Tok, bool) {
 	var out []Tok
 	for _, s := range d.Sections {
 		if s == nil || s.Syntax == nil || s.Syntax.Data == nil {
@@ -538,11 +537,11 @@ func expectedToData(d *astits.PSIData, p *astits.Packet, pid uint16) ([]Tok, boo
 			dd.PAT = x.PAT
 		case tid == rTidPMT:
 			dd.PMT = x.PMT
-		case refIsNIT(tid):
+		case psiRefIsNIT(tid):
 			dd.NIT = x.NIT
-		case refIsSDT(tid):
+		case psiRefIsSDT(tid):
 			dd.SDT = x.SDT
-		case refIsEIT(tid):
+		case psiRefIsEIT(tid):
 			dd.EIT = x.EIT
 		case tid == rTidTOT:
 			dd.TOT = x.TOT
@@ -555,7 +554,7 @@ func expectedToData(d *astits.PSIData, p *astits.Packet, pid uint16) ([]Tok, boo
 }
 
 func psiParseOracle(bs []byte, obs Tok, strict bool) string {
-	want, info, err := refDecodeUnit(bs)
+	want, info, err := psiRefDecodeUnit(bs)
 	if info.oldDate {
 		return "" // dates before 1900-03-01 are outside the Annex C conversion (C15's subject)
 	}
@@ -597,7 +596,7 @@ func (c13) Oracle(c Tok, obs Tok) string {
 		if obs.At(0).Int() != 0 {
 			return "writePSIData fails on PAT/PMT content inside its domain: " + obs.String()
 		}
-		ref := refEncodeUnit(&d, nil)
+		ref := psiRefEncodeUnit(&d, nil)
 		if !eqBytes(obs.At(1).Bytes(), ref) {
 			return fmt.Sprintf("writePSIData output differs from the reference encoding: got %x want %x", obs.At(1).Bytes(), ref)
 		}
@@ -606,7 +605,7 @@ func (c13) Oracle(c Tok, obs Tok) string {
 		FromTok(c.At(1), &d)
 		var p astits.Packet
 		FromTok(c.At(3), &p)
-		want, ok := expectedToData(&d, &p, uint16(c.At(2).Int()))
+		want, ok := psiExpectedToData(&d, &p, uint16(c.At(2).Int()))
 		if !ok {
 			return ""
 		}
@@ -620,7 +619,7 @@ func (c13) Oracle(c Tok, obs Tok) string {
 		if !psiWritable(d) {
 			return ""
 		}
-		if want := int64(len(refEncodeSection(&s)) - 3); obs.At(0).Int() != 0 || obs.At(1).Int() != want {
+		if want := int64(len(psiRefEncodeSection(&s)) - 3); obs.At(0).Int() != 0 || obs.At(1).Int() != want {
 			return fmt.Sprintf("calcPSISectionLength = %s, the reference encoding has %d bytes after the length field", obs.String(), want)
 		}
 	case 5:
@@ -631,19 +630,19 @@ func (c13) Oracle(c Tok, obs Tok) string {
 		if !psiWritable(&astits.PSIData{Sections: []*astits.PSISection{s}}) {
 			return ""
 		}
-		if want := int64(len(refEncodeSection(s)) - 3 - 5 - 4); obs.Int() != want {
+		if want := int64(len(psiRefEncodeSection(s)) - 3 - 5 - 4); obs.Int() != want {
 			return fmt.Sprintf("calcPMTSectionLength = %d, the reference encoding of the PMT body has %d bytes", obs.Int(), want)
 		}
 	case 6:
 		in := c.At(1).Bytes()
-		want, _, err := refDecodeUnit(in)
+		want, _, err := psiRefDecodeUnit(in)
 		if err != nil {
 			return ""
 		}
 		if obs.At(0).Int() != 0 {
 			return "parsePSIData rejects a unit the reference decoder accepts"
 		}
-		if !psiWritable(want) || !eqBytes(refEncodeUnit(want, nil), in) {
+		if !psiWritable(want) || !eqBytes(psiRefEncodeUnit(want, nil), in) {
 			return ""
 		}
 		w := obs.At(2)
